@@ -26,6 +26,16 @@ CHECKS = {
           "Generated histories of add/delete/commit/rollback/compact/reopen over 1-3 writer handles and both storages are executed against the real index and against an in-memory reference model; a fresh reader's match_all must equal the model after every check point. Exploration, not proof: it samples the history space (thousands of histories per run) and shrinks any failure to a minimal op list.",
           "Trusted: the reference store model (harness/src/model.rs), serde_json, proptest. In-memory storage is driven with one live handle at a time.",
           "DESIGN.md §5 C04"),
+  "C05": ("exploration",
+          "schedule exploration by property testing: real threads under a baton scheduler driven by generated, shrinkable plans through hook points in searchlite-core; serializability judged by simulating every serial order on the store model",
+          "2-3 real threads, each with its own writer handle and a program of 1-4 calls (add, delete, commit, rollback; optionally a compaction thread) run on one filesystem index; the schedule plan (forced baton switches at numbered hook points, preference order, optional dense switching) is executed through hooks in front of every writer-lock acquisition and inside add / commit / compaction, the lock hook reading the real mutex state. No call may fail, the live and the reopened index must agree, and final contents plus every add_document return value must be produced by some serial order of the calls (all merges respecting program order, with each handle's opening as a call of its own, simulated on the multi-handle store model).",
+          "Only interleavings at the hook points are explored. Trusted: harness/src/sched.rs, the store model. A stuck schedule is exit 2, never a violation. Hook: verif::point / verif::lock_wait.",
+          "DESIGN.md §5 C05"),
+  "C06": ("exploration",
+          "schedule exploration by property testing: reader / writer / compaction threads under the baton scheduler, reader results judged against the model's sequence of committed states and the open window taken from the global event log",
+          "One writer thread (adds, deletes, commits), optionally a compaction thread, and 1-2 reader threads (open, search 1-3 times, possibly open again) as real threads on one index with 2-5 seed documents in two segments; the schedule plan is executed through hook points in reader open (after the manifest copy, before every segment open), commit (5 points) and compaction (after its reader, after publishing, after deleting old segments). Index::reader() and every search must succeed; all searches of one reader must return one committed state S_i, the same each time, with i between the commits finished before the open began and the commits begun before it ended.",
+          "Only interleavings at the hook points are explored. Trusted: harness/src/sched.rs, the store model, the event log's total order.",
+          "DESIGN.md §5 C06"),
   "C07": ("exploration",
           "property-based testing against a three-valued reference query matcher over the raw JSON documents",
           "Random schemas (analyzer menu: default/whitespace/unicode, stopwords, stemming, synonyms), corpora committed over 1-4 segments with upserts and deletions, and query trees over every node type (plus request-level fuzzy and default fields) are run with execution=bm25 and a limit above the corpus size; the hit-id set must lie between the reference matcher's must-match and may-match sets. Per corpus the closed-form family term(field, word) is checked for every word of every indexed value, for plain analyzers against an independent tokenisation.",
